@@ -131,7 +131,7 @@ def query_check(run, gens, own_clauses, rule, assumptions, ops=False, mc=None, r
 
 # --------------------------------------------------------------------------------------
 def c02(run):
-    gens = [("Gen_Selector", "sel", 16, 1, 6000, 250000, ["SelectionLaw", "EmitSel"], 1000)]
+    gens = [("Gen_Selector", "sel", 16, 24, 6000, 70000, ["SelectionLaw", "EmitSel"], 1000)]
     return query_check(
         run, gens, RESULT,
         rule=("TLC enumerates every sample layout x lookback x per-query lookback x offset x @ x step x window of the "
@@ -144,8 +144,8 @@ def c02(run):
 
 
 def c03(run):
-    gens = [("Gen_Window", "win", 8, 1, 6000, 200000, ["WindowLaw", "EmitWin"], 1000),
-            ("Gen_Window", "win500", 64, 8, 1000, 30000, ["EmitWin"], 500)]
+    gens = [("Gen_Window", "win", 8, 16, 6000, 60000, ["WindowLaw", "EmitWin"], 1000),
+            ("Gen_Window", "win500", 64, 128, 1000, 12000, ["EmitWin"], 500)]
     return query_check(
         run, gens, RESULT,
         rule=("TLC enumerates every sample layout (floats / staleness markers, two value patterns) x range x step x offset x @ x "
@@ -197,7 +197,7 @@ def c06(run):
 
 
 def c01(run):
-    gens = [("Gen_Compose", "cmp", 8, 2, 6000, 150000, ["ComposeLaw", "EmitCmp"], 1000),
+    gens = [("Gen_Compose", "cmp", 8, 8, 6000, 60000, ["ComposeLaw", "EmitCmp"], 1000),
             ("Gen_WF", "wf", 1, 1, 1000, 1000, ["EmitWF"], 1000)]
     return query_check(
         run, gens, RESULT,
@@ -210,12 +210,12 @@ def c01(run):
               "datasets, windows of 1..35 steps with steps of 1..5 ticks, tick 0.5/1/15 s, per-query lookbacks) are replayed; their "
               "expected outcome is computed by TLC from PromQLRef during trace validation. distinct_nontrivial = structural scenarios on which PromQLRef agreed with Prometheus."),
         assumptions=["Prometheus v0.40.1 is the reference", "OPAQUE values are compared with the reference by the Go comparator (1e-9)"],
-        rnd=("compose", 3000, 60000))
+        rnd=("compose", 3000, 40000))
 
 
-ALL_GENS = [("Gen_Selector", "sel", 16, 1, ["EmitSel"], 1000), ("Gen_Window", "win", 8, 1, ["EmitWin"], 1000),
+ALL_GENS = [("Gen_Selector", "sel", 16, 24, ["EmitSel"], 1000), ("Gen_Window", "win", 8, 16, ["EmitWin"], 1000),
             ("Gen_Agg", "agg", 1, 1, ["EmitAgg"], 1000), ("Gen_Bin", "bin", 1, 1, ["EmitBin"], 1000),
-            ("Gen_Func", "fn", 1, 1, ["EmitFn"], 1000), ("Gen_Compose", "cmp", 8, 2, ["EmitCmp"], 1000)]
+            ("Gen_Func", "fn", 1, 1, ["EmitFn"], 1000), ("Gen_Compose", "cmp", 8, 8, ["EmitCmp"], 1000)]
 
 
 def all_scenarios(run, cap_quick, cap_thorough, only=None):
@@ -256,8 +256,8 @@ def c19(run):
     binary = vlib.build()
     quick = run.tier == "quick"
     scs = vlib.generate(run, "Gen_WF", gen_cfg(run.tier, run.seed, 1, ["EmitWF"]), "wf", fam="C19")
-    scs += all_scenarios(run, 1200, 20000)
-    scs += vlib.gen_random(run, binary, "compose", 2500 if quick else 40000, "C19")
+    scs += all_scenarios(run, 1200, 12000)
+    scs += vlib.gen_random(run, binary, "compose", 2500 if quick else 30000, "C19")
     chunks = max(1, min(vlib.NCPU // 2, len(scs) // 400))
     traces = vlib.replay(run, binary, "query", scs, "q", chunks=chunks)
     viols, stats = vlib.validate(run, "QueryTrace", traces, "q")
